@@ -1993,6 +1993,10 @@ class FortranFile:
             add_line_comment(file_ast, docs)
             return False
 
+        # The trailing comment of the previous line documents that line, it is not
+        # part of a block that documents the entity that follows
+        if docs and doc_match.group(1) == ">":
+            add_line_comment(file_ast, docs)
         _ln = ln
         ln, docs[:], predocmark = self.get_docstring(ln, line, doc_match, docs)
 
@@ -2040,7 +2044,9 @@ class FortranFile:
         for i in range(ln, self.nLines):
             next_line = self.get_line(i, pp_content=True)
             match = self.DOC_COMMENT_MATCH.match(next_line)
-            if not match:
+            # A `!>` line after a block that documents the preceding entity (`!<`)
+            # starts the documentation of the next entity
+            if not match or (not predocmark and match.group(1) == ">"):
                 ln = i
                 break
             docstring.append(next_line[match.end(0) :].strip())
